@@ -93,7 +93,8 @@ def handle(sut, req):
 def main():
     here = os.path.dirname(os.path.dirname(os.path.abspath(__file__)))
     sys.path.insert(0, here)
-    from pbt import sut
+    from pbt import sut, runner
+    runner.limit_memory()
     out = os.fdopen(os.dup(1), "w")
     devnull = os.open(os.devnull, os.O_WRONLY)
     os.dup2(devnull, 1)
